@@ -24,8 +24,10 @@
 // which the harness (or a goroutine) entered the code under test.  Two reports are
 // duplicates when the unordered pair of their outermost repo frames (file + function,
 // line numbers ignored) is equal.  The violation key uses the outermost frame that lies
-// in the anchored files: file relative to the repo root and the function without its
-// package path, e.g. "race:p2pserver/dht/kbucket/table.go:(*RouteTable).Update".
+// in the anchored files (when both access stacks have one: the lexicographically smaller,
+// so the key does not depend on the order of the two accesses): file relative to the repo
+// root and the function without its package path, e.g.
+// "race:p2pserver/dht/kbucket/table.go:(*RouteTable).Update".
 //
 // The repository root is $VERIF_REPO (default /repo): monitors built against a scratch
 // worktree therefore classify frames of that worktree.
@@ -223,8 +225,10 @@ func Classify(reports []Report, root string, anchors []string) []Unique {
 				o = "-"
 			}
 			pair = append(pair, o)
-			if anchoredKey == "" {
-				anchoredKey = outermost(s, root, inAnchor)
+			// the key frame is the lexicographically smallest anchored outermost frame of the
+			// two access stacks, so that it does not depend on which access was reported first
+			if a := outermost(s, root, inAnchor); a != "" && (anchoredKey == "" || a < anchoredKey) {
+				anchoredKey = a
 			}
 		}
 		for len(pair) < 2 {
